@@ -3,6 +3,7 @@ package main
 // Translation of contract expressions into SMT terms over a pair of states (old, cur).
 
 import (
+	"go/ast"
 	"regexp"
 	"fmt"
 	"go/token"
@@ -87,6 +88,23 @@ func (un *Unit) scopeFor(fr *Frame, cur, old *State, results []Val) *Scope {
 				p := un.placeOf(cur, v, pt.Elem())
 				// value of the captured variable: state dependent; resolve lazily through a marker
 				sc.vars[fv.Name()] = SV{t: "", typ: pt.Elem(), place: p}
+			}
+		}
+	}
+	// packages built with debug info (`debugnames`): source names of register-allocated locals
+	for _, b := range fr.fn.Blocks {
+		for _, in := range b.Instrs {
+			if dr, ok := in.(*ssa.DebugRef); ok && !dr.IsAddr {
+				if id, ok := dr.Expr.(*ast.Ident); ok {
+					if id.Name == "err" || id.Name == "result" || id.Name == "ok" || strings.HasPrefix(id.Name, "ret") {
+						continue // the contract's names for results win
+					}
+					if val, bound := fr.env[dr.X]; bound && val.t != "" {
+						if _, clash := sc.vars[id.Name]; !clash {
+							sc.vars[id.Name] = SV{t: val.t, typ: dr.X.Type()}
+						}
+					}
+				}
 			}
 		}
 	}
@@ -467,7 +485,7 @@ func (un *Unit) evIdent(name string, sc *Scope) SV {
 			case *types.Const:
 				return un.constSV(o)
 			case *types.Var:
-				n := "|g_glob_" + sanitize(sc.pkg.Name()+"."+name) + "|"
+				n := "|g_glob_" + sanitize(pkgKey(sc.pkg)+"."+name) + "|"
 				if !un.u.declared[n] {
 					un.u.declare(n, "Int")
 					un.addFact("(< " + n + " 0)")
@@ -753,7 +771,7 @@ func (un *Unit) evSel(e *ESel, sc *Scope) SV {
 					case *types.Const:
 						return un.constSV(o)
 					case *types.Var:
-						n := "|g_glob_" + sanitize(pkg.Name()+"."+e.Name) + "|"
+						n := "|g_glob_" + sanitize(pkgKey(pkg)+"."+e.Name) + "|"
 						if !un.u.declared[n] {
 							un.u.declare(n, "Int")
 							un.addFact("(< " + n + " 0)")
@@ -1389,6 +1407,15 @@ func (un *Unit) applyContract(fr *Frame, st *State, fc *FuncContract, names []st
 		}
 		sc.vars[n] = SV{t: args[i].t, typ: t, place: args[i].place}
 	}
+	if un.pendingClosure != nil && len(un.pendingClosure.FreeVars) > 0 {
+		cs := un.closureScope(un.pendingClosure, un.pendingBinds, st, fr)
+		for k, v := range cs.vars {
+			if _, clash := sc.vars[k]; !clash {
+				sc.vars[k] = v
+			}
+		}
+		un.pendingClosure, un.pendingBinds = nil, nil
+	}
 	// function-typed parameters declared with a funcspec: the actual argument must be a function known to implement it
 	for pn, fsName := range fc.Params {
 		for i, n := range names {
@@ -1598,6 +1625,40 @@ func (un *Unit) havocLvalue(text string, sc *Scope, st *State) {
 		if g.Counter {
 			un.addFact("(>= " + after + " " + before + ")")
 		}
+		return
+	}
+	if strings.HasPrefix(text, "pointee(") && strings.HasSuffix(text, ")") {
+		// pointee(x): every field of the struct that the interface value x points to (x = a boxed pointer whose
+		// dynamic type is known at the call site, e.g. the &v handed to an unmarshaller)
+		e, err := parseExpr(text[len("pointee(") : len(text)-1])
+		if err != nil {
+			un.outside = "contract error: " + err.Error()
+			return
+		}
+		o := sc.child()
+		o.cur = sc.old
+		x := un.ev(e, o)
+		if strings.HasPrefix(x.t, "(mk_iface ") {
+			rest := strings.TrimSuffix(strings.TrimPrefix(x.t, "(mk_iface "), ")")
+			if sp := strings.Index(rest, " "); sp > 0 {
+				var tag int
+				if _, err := fmt.Sscanf(rest[:sp], "%d", &tag); err == nil {
+					if pt, ok := typeTagTypes[tag]; ok {
+						if ptr, ok := pt.Underlying().(*types.Pointer); ok && isStructType(ptr.Elem()) {
+							var ms []modEntry
+							un.modObject(&ms, rest[sp+1:], ptr.Elem())
+							for _, m := range ms {
+								srt := elemSortOf(un.compSort[m.comp])
+								fresh := un.u.freshConst("mod_pointee", srt)
+								un.set(st, m.comp, sto(un.get(st, m.comp), fresh, m.key))
+							}
+							return
+						}
+					}
+				}
+			}
+		}
+		un.fullHavoc(st, "pointee of an interface value of unknown dynamic type")
 		return
 	}
 	if strings.HasPrefix(text, "all ") {
